@@ -178,6 +178,13 @@ def _table_cells(table):
     return [list(table.headings)] + [list(r.cells) for r in table.rows]
 
 
+def _csv_converter(text):
+    return [part.strip() for part in text.split(",")]
+
+
+_csv_converter.pattern = r"[a-z](?:,[a-z])*"
+
+
 def _bad_converter(text):
     if text.startswith("k"):
         raise KeyError(text)        # a converter may raise anything (e.g. an enum lookup)
@@ -330,6 +337,11 @@ def step_definitions(plan):
         defs.append((u"step {uid:w} %s" % phrase, func))
     defs.append((u"step {uid:w} misconverts {n:Bad}", do_convert))
 
+    def do_takes(context, uid, items):
+        enter(context, uid)
+        assert items == ["a", "b", "c"], "the step function received %r instead of the converted value" % (items,)
+    defs.append((u"step {uid:w} takes {items:Csv}", do_takes))
+
     # -- variants with a free-text tail (hostile characters in step names)
     def with_tail(func):
         def step_with_tail(context, uid, tail):
@@ -371,6 +383,8 @@ def ensure_types():
     from behave.matchers import ParseMatcher
     if not ParseMatcher.has_registered_type("Bad"):
         ParseMatcher.register_type(Bad=_bad_converter)
+    if not ParseMatcher.has_registered_type("Csv"):
+        ParseMatcher.register_type(Csv=_csv_converter)
 
 
 def build_registry(plan):
